@@ -3,6 +3,9 @@ From DF Require Import Base.Prelude Model.RefSQL Proofs.RefSQLLaws Model.SimpRul
 Import ListNotations.
 Open Scope Z_scope.
 
+Check C04_sev_adequate :
+  forall f e d en,
+  subq_free e = true -> (edepth e < f)%nat -> eval_expr f d en e = sev en e.
 Check C04_rw_eval_expr :
   forall en l r, rw en l r ->
   forall f d v, subq_free l = true -> subq_free r = true -> (edepth l < f)%nat -> (edepth r < f)%nat ->
@@ -307,6 +310,13 @@ Check C04_rule_guarantee_single_value_sound :
 Check C04_nullable_sound :
   forall sch r en e,
   conforms sch r -> nullable sch e = false -> nonnull_at (r :: en) e.
+Check C04_equiv_regions_sound :
+  forall e e' cs, equiv_regions e e' cs = true ->
+  forall v, v = VNull \/ (exists z, v = VInt z) -> sev [[v]] e = sev [[v]] e'.
+Check C04_equiv_regions_example :
+  equiv_regions (EAnd (ECmp CGe (ECol 0 0) (ELit (VInt 5))) (ECmp CLe (ECol 0 0) (ELit (VInt 5))))
+                (ECmp CEq (ECol 0 0) (ELit (VInt 5))) [5] = true /\
+  equiv_regions (ENot (ECmp CLt (ECol 0 0) (ELit (VInt 3)))) (ECmp CGt (ECol 0 0) (ELit (VInt 3))) [3] = false.
 Check C04_nonvacuous_eq_self :
   let sch := [false; true] in let r := [VInt 5; VNull] in
   conforms sch r /\ nullable sch (EArith AAdd (ECol 0 0) (ELit (VInt 1))) = false /\
@@ -319,6 +329,7 @@ Check C04_nonvacuous_validator :
   equiv_small (ECmp CEq (ECol 0 0) (ECol 0 0)) (ELit (VBool true)) [TInt false (-128) 127] = true /\
   equiv_small (EAnd (EInList false (ECol 0 0) [ELit (VInt 1); ELit VNull]) (EInList false (ECol 0 0) [ELit (VInt 2)]))
               (ELit (VBool false)) [TInt true (-128) 127] = false.
+Print Assumptions C04_sev_adequate.
 Print Assumptions C04_rw_eval_expr.
 Print Assumptions C04_rule_eq_self_sound.
 Print Assumptions C04_rule_eq_self_nullable_sound.
@@ -451,5 +462,7 @@ Print Assumptions C04_rule_guarantee_interval_cmp_sound.
 Print Assumptions C04_rule_guarantee_is_null_sound.
 Print Assumptions C04_rule_guarantee_single_value_sound.
 Print Assumptions C04_nullable_sound.
+Print Assumptions C04_equiv_regions_sound.
+Print Assumptions C04_equiv_regions_example.
 Print Assumptions C04_nonvacuous_eq_self.
 Print Assumptions C04_nonvacuous_validator.
